@@ -410,3 +410,83 @@ def allocfail_ns(case, res):
 
 def _json(x):
     return json.dumps(x, sort_keys=True)
+
+
+@scenario("allocfail-fetch")
+def allocfail_fetch(case, res):
+    """one fetch / unfetch with allocation number n failing: afterwards the subscription either exists completely (initial
+    state delivered, later events arrive) or not at all (no later events, the fetch id is free again) - as the answer said"""
+    prm = case["params"]
+    nth = prm.get("nth")
+    count = prm.get("count", 1)
+    op = prm["op"]
+
+    def body(S, rng):
+        S.check_m = True
+        t = prm.get("transport", "raw")
+        o = _mk(S, "o", "raw")
+        sub = _mk(S, "sub", t)
+        S.request(o, "add", {"path": "s/a", "value": 1})
+        S.request(o, "add", {"path": "s/m"})
+        S.request(o, "add", {"path": "t/x", "value": 1})
+        rule = {"startsWith": "s/", "caseInsensitive": True}
+        if op == "unfetch":
+            S.request(sub, "fetch", {"id": "f", "path": rule})
+        S.settle()
+        sub.keep_log = True
+        S.alloc_faults = True
+        S.desync = True
+        S.strict_close = False
+        if nth is not None:
+            S.sim.failalloc(nth, count)
+        start = S.sim.stat()["allocs"]
+        p = S.request(sub, "fetch", {"id": "f", "path": rule}) if op == "fetch" else S.request(sub, "unfetch", {"id": "f"})
+        p.expect_override = "any"
+        S.settle()
+        st = S.sim.stat()
+        S.sim.failalloc(-1, 0)
+        if nth is None:
+            res.alloc_count = st["allocs"] - start
+        S.stats["faults_fired"] += 1 if st["alloc_failed"] else 0
+        ans = [m for m in sub.msglog if isinstance(m, dict) and m.get("id") == p.idv and ("result" in m or "error" in m)]
+        said = "nothing" if not ans else "done" if "result" in ans[0] else "refused"
+        S.sig("fetch-under-allocation-failure", op, said, t)
+        mark = len(sub.msglog)
+        if not sub.closed:
+            # later events of the owner
+            S.request(o, "change", {"path": "s/a", "value": 2}).expect_override = "any"
+            S.request(o, "add", {"path": "s/b", "value": 3}).expect_override = "any"
+            S.settle()
+            later = [m for m in sub.msglog[mark:] if isinstance(m, dict) and m.get("method") == "f"]
+            subscribed = {("fetch", "done"): True, ("fetch", "refused"): False, ("unfetch", "done"): False, ("unfetch", "refused"): True}.get((op, said))
+            if subscribed is True:
+                got = sorted((m["params"].get("path"), m["params"].get("event")) for m in later if isinstance(m.get("params"), dict))
+                if got != [("s/a", "change"), ("s/b", "add")]:
+                    S.v("fetchstate/subscription-incomplete-although-answer-%s-%s" % (op, said), "later events seen: %r (allocation %r failing x%d)" % (got, nth, count))
+                if op == "fetch":
+                    first = sorted((m["params"].get("path"), m["params"].get("event")) for m in sub.msglog[:mark]
+                                   if isinstance(m, dict) and m.get("method") == "f" and isinstance(m.get("params"), dict))
+                    if first != [("s/a", "add"), ("s/m", "add")]:
+                        S.v("fetchstate/initial-state-incomplete-although-fetch-succeeded", "initial events: %r (allocation %r failing x%d)" % (first, nth, count))
+            elif subscribed is False:
+                if later:
+                    S.v("fetchstate/events-although-answer-%s-%s" % (op, said), "%s (allocation %r failing x%d)" % (_json(later[:2])[:200], nth, count))
+                # the fetch id is free again: a fresh fetch with it works completely
+                mark2 = len(sub.msglog)
+                q = S.request(sub, "fetch", {"id": "f", "path": rule})
+                q.expect_override = "any"
+                S.settle()
+                a2 = [m for m in sub.msglog[mark2:] if isinstance(m, dict) and m.get("id") == q.idv]
+                ev2 = sorted((m["params"].get("path"), m["params"].get("event")) for m in sub.msglog[mark2:]
+                             if isinstance(m, dict) and m.get("method") == "f" and isinstance(m.get("params"), dict))
+                if not a2 or "result" not in a2[0] or ev2 != [("s/a", "add"), ("s/b", "add"), ("s/m", "add")]:
+                    S.v("fetchstate/fetch-id-not-usable-after-%s-%s" % (op, said), "answer %s, events %r (allocation %r failing x%d)" % (_json(a2[:1])[:120], ev2, nth, count))
+        S.end(sub, "eof")
+        S.end(o, "eof")
+        S.settle()
+        probe(S, "")
+        st = S.close_all()
+        S.check_idle_baseline(st)
+        S.shutdown()
+        return [op, t, "alloc", nth, said]
+    sim_case(case, res, body)
